@@ -452,14 +452,14 @@ class Tokenizer(ITokenizer):
 			instance = cls()
 			instance.nest = nest
 			instance.enclosure = enclosure
-			instance._indent_spaces = indent_spaces
+			instance._indents = [indent_spaces * (index + 1) for index in range(nest)]
 			return instance
 
 		def __init__(self) -> None:
 			"""インスタンスを生成"""
 			self.nest = 0
 			self.enclosure = 0
-			self._indent_spaces = -1
+			self._indents: list[int] = []
 
 		def to_nest(self, spaces: int) -> int:
 			"""基数を基にスペース数からネスト数を算出
@@ -469,13 +469,14 @@ class Tokenizer(ITokenizer):
 			Returns:
 				ネスト数
 			"""
-			if spaces == 0:
-				return 0
+			# 各ブロックのインデント幅をスタックで管理し、幅が不揃いなブロックでもネストの増減は常に1段ずつとする
+			while len(self._indents) > 0 and self._indents[-1] > spaces:
+				self._indents.pop()
 
-			if self._indent_spaces == -1:
-				self._indent_spaces = spaces
+			if spaces > 0 and (len(self._indents) == 0 or self._indents[-1] < spaces):
+				self._indents.append(spaces)
 
-			return int(spaces / self._indent_spaces)
+			return len(self._indents)
 
 	def _rebuild(self, tokens: list[Token]) -> list[Token]:
 		"""トークンを解析してプログラムで解釈しやすい形式に整形
